@@ -46,6 +46,27 @@ for m in sorted(glob.glob(V + '/seeded/*/meta.json')):
         c = '(property not claimed)'
     out.append('| %s | %s | %s |' % (k, title.replace('|', '/')[:160], c))
 out += ['', open(V + '/tools/design10_tail.md').read().rstrip('\n'), '']
+# harmless corpus
+hs = sorted(glob.glob(V + '/harmless/*/'))
+if hs:
+    out += ['### 10.7 Harmless changes: which refactorings stay quiet', '',
+            open(V + '/tools/design10_harmless.md').read().rstrip('\n'), '',
+            '| change | what it does | outcome of the property\'s quick check |', '|---|---|---|']
+    for h in hs:
+        hid = os.path.basename(h.rstrip('/'))
+        title = ''
+        np_ = h + 'NOTES.md'
+        if os.path.exists(np_):
+            lines = [l.strip() for l in open(np_) if l.strip()]
+            body = [l for l in lines if not l.startswith('#')]
+            title = re.sub(r'\s+', ' ', ' '.join(body[:2]))[:170] if body else ''
+        res = 'not run'
+        rp = h + 'result.json'
+        if os.path.exists(rp):
+            r = json.load(open(rp))
+            res = 'quiet' if r['exit'] == 0 else 'ALARM: ' + ', '.join(r['alarms'][:2])
+        out.append('| %s | %s | %s |' % (hid, title.replace('|', '/'), res))
+    out.append('')
 s = open(V + '/DESIGN.md').read()
 marker = '\n---\n\n## 10. Status: what was built'
 if marker in s:
